@@ -440,3 +440,59 @@ def r9(ctx, R):
             missing = [e for e in exp if e not in found]
             extra = [f for f in found if f not in exp]
             R.check(not missing and not extra, f'{cn}.{m} :: definitions of the derived matrices', w, missing[:4], extra[:4])
+
+
+@rule('C02', 'C02.R10', 'every right-hand-side evaluation of a collocation sweeper pairs node value m with the time of node m: eval_f(u[m], t + dt*nodes[m-1]) (u[0] with t); covers the sweepers without a reference signature too', floor=15)
+def r10(ctx, R):
+    import sympy
+    repo = ctx.repo
+    base = repo.cls('pySDC/core/sweeper.py', 'Sweeper')
+    rk = repo.cls('pySDC/implementations/sweeper_classes/Runge_Kutta.py', 'RungeKutta')
+    rkn = repo.classes.get('pySDC.implementations.sweeper_classes.Runge_Kutta_Nystrom.RungeKuttaNystrom')
+    seen = set()
+    rx = re.compile(r'eval_f\((.*?), (L\.time[^)]*?)\)( |$|,)')
+    for ci in repo.subclasses(base):
+        if not (repo.is_library(ci) or 'projects/DAE/sweepers' in ci.module.relpath):
+            continue
+        tableau = repo.is_subclass(ci, rk) or (rkn is not None and repo.is_subclass(ci, rkn))
+        for name, fn in ci.methods.items():
+            if id(fn) in seen or 'eval_f' not in ast.unparse(fn):
+                continue
+            seen.add(id(fn))
+            w = f'{ci.module.relpath}:{ci.name}.{name}'
+            try:
+                N = Normalizer(fn)
+            except AnalysisError as e:
+                raise AnalysisError(f'{w}: {e}')
+            for c in N.contribs:
+                d = c.describe()
+                for m in rx.finditer(d):
+                    arg, t = m.group(1), m.group(2)
+                    mu = re.match(r'L\.u\[(.+?)\]', arg)
+                    if not mu:
+                        R.exc(f'{ci.name}.{name} :: eval_f({arg[:30]}, {t})', w, 'argument is not a node slot (stage value / temporary): outside this rule')
+                        continue
+                    R.fn(w)
+                    k = mu.group(1)
+                    mt = re.fullmatch(r'L\.time \+ L\.dt \* self\.coll\.nodes\[(.+)\]', t)
+                    if k == '0':
+                        R.check(t == 'L.time', f'{ci.name}.{name} :: f(u[0]) is evaluated at the start time', w, 'eval_f(L.u[0], L.time)', f'eval_f({arg}, {t})')
+                        continue
+                    if mt is None:
+                        R.exc(f'{ci.name}.{name} :: eval_f({arg}, {t})', w, 'time is not a collocation node time (single-step end point): outside this rule')
+                        continue
+                    sub = lambda s_: s_.replace('self.rank', 'rank').replace('self.coll.num_nodes', 'M')
+                    try:
+                        diff = sympy.simplify(sympy.sympify(sub(k)) - sympy.sympify(sub(mt.group(1))))
+                    except Exception:
+                        raise AnalysisError(f'{w}: cannot compare indices {k!r} and {mt.group(1)!r}')
+                    want = 0 if tableau else 1
+                    if tableau:
+                        # tableau sweepers are outside the formula families of C02 (their stage equations are decided by C04.R1); an
+                        # inconsistent stage time is reported as a NOTE (observation O1 in DESIGN.md §11.3), never as a C02 violation
+                        if diff != want:
+                            R.note(f'{ci.name}.{name} :: eval_f(u[{k}], t + dt*nodes[{mt.group(1)}])', w, f'the tableau nodes carry a leading 0, so stage {k} lives at nodes[{k}] (repro/O1_rkn_stage_time.py); invisible for autonomous problems; observation O1, outside the inputs of C02/C04')
+                        else:
+                            R.ok(f'{ci.name}.{name} :: eval_f(u[{k}], ..) uses the time of that stage', w, found=f'nodes[{mt.group(1)}]')
+                        continue
+                    R.check(diff == want, f'{ci.name}.{name} :: eval_f(u[{k}], ..) uses the time of that node', w, f'nodes[{k} - 1]' if not tableau else f'nodes[{k}] (tableau nodes carry a leading 0)', f'nodes[{mt.group(1)}]')
